@@ -25,7 +25,9 @@ class DeflateZipModel(JWEZipModel):
         else:
             decompressor = zlib.decompressobj(-zlib.MAX_WBITS)
         value = decompressor.decompress(s, MAX_SIZE)
-        if decompressor.unconsumed_tail:
+        # zlib may consume all of its input and still hold back output that
+        # did not fit into MAX_SIZE, in which case "unconsumed_tail" is empty
+        if decompressor.unconsumed_tail or decompressor.decompress(b"", 1):
             raise ExceededSizeError(f"Decompressed string exceeds {MAX_SIZE} bytes")
         return value
 
